@@ -427,7 +427,7 @@ Proof.
     + apply andb_true_iff in En. destruct En as [En E2]. apply andb_true_iff in En. destruct En as [E0 E1].
       rewrite (le_nan F G HFG E0), E1, E2 in HG'. injection HG' as HG'. subst; reflexivity.
     + destruct (o_nan G && is_nan a && str_is_nan b); [injection HG' as HG'; subst; reflexivity|].
-      eapply (dispatch_mono true a b); try eassumption; [intros _; exact Et|left; exact ExA].
+      eapply (dispatch_mono true a b); try eassumption; [intros _; exact Et|left; exact ExA|left; exact Et].
   - (* two types *)
     destruct (negb (same_group F (atom_ty a) (atom_ty b)) && negb (o_enum F && (is_enum a || is_enum b))) eqn:EgF.
     { exfalso. injection HF' as HF'. eapply (rep_atoms_nonempty KType p1 p2 a b); [|exact HF']. rewrite ExA, ExB. reflexivity. }
@@ -452,6 +452,13 @@ Proof.
     + apply andb_true_iff in En. destruct En as [En E2]. apply andb_true_iff in En. destruct En as [E0 E1].
       rewrite (le_nan F G HFG E0), E1, E2 in HG'. injection HG' as HG'. subst; reflexivity.
     + destruct (o_nan G && is_nan a' && str_is_nan b'); [injection HG' as HG'; subst; reflexivity|].
+      assert (reach G a' b') as Hreach.
+      { apply andb_false_iff in EgG. destruct EgG as [K|K]; apply negb_false_iff in K.
+        - destruct (same_group_not_enum G _ _ K) as [Na Nb].
+          assert (is_enum a = false) as Ia by (destruct a; try reflexivity; exfalso; eapply Na; reflexivity).
+          assert (is_enum b = false) as Ib by (destruct b; try reflexivity; exfalso; eapply Nb; reflexivity).
+          subst a' b'. rewrite !unwrap_noenum by assumption. right. left. exact K.
+        - apply andb_true_iff in K. right. right. tauto. }
       eapply (dispatch_mono false a' b'); try eassumption; [discriminate| |apply pair_ok_unwrap; exact Hp].
       subst a'. destruct a; cbn [unwrap]; try (left; exact ExA).
       destruct (o_enum F); [right; destruct v; reflexivity|right; reflexivity].
